@@ -249,11 +249,11 @@ def parse_axioms(text):
 
 
 # ----------------------------------------------------------------------------- Go harness build / run
-def build_harness(pid, log):
+def build_harness(pid, log, wd=None):
     """go build -overlay of harness/<pid> inside the kubegateway module. Returns (binpath|None, output)."""
     d = os.path.join(VERIF, "harness", pid.lower())
     ov = json.load(open(os.path.join(d, "overlay.json")))
-    wd = os.path.join(BUILD, pid)
+    wd = wd or os.path.join(BUILD, pid)
     os.makedirs(wd, exist_ok=True)
     repl = {}
     for k, v in ov.items():
